@@ -299,7 +299,8 @@ func (r *muxRig) runCase(stream []byte, evs []ev, sizes []int, drain bool) (o mu
 		o.route = got.svc
 	case <-fc.closeCh:
 		o.route = "closed"
-	case <-time.After(60 * time.Second):
+	case <-time.After(30 * time.Second):
+		// neither handed to a service nor closed (generous watchdog: the scripted connection never blocks)
 		o.route = "stuck"
 		return
 	}
@@ -807,6 +808,7 @@ func runMux(c *Ctx) {
 	}
 	outs := c.Drive(lines)
 	rig := newRig()
+	stuck := 0
 	for i := range cases {
 		k := &cases[i]
 		line := lines[2*i]
@@ -814,6 +816,15 @@ func runMux(c *Ctx) {
 		cl := KV(outs[2*i+1])
 		o, pan := rig.runCase(k.stream, k.evs, k.sizes, k.clean)
 		c.Eval(line, len(k.stream) > 0)
+		if o.route == "stuck" {
+			c.Find(Finding{Kind: "oracle", Class: "connection-neither-delivered-nor-closed", Case: line, Impl: "no service got the connection and it was not closed", Spec: "exactly one service, or closed"})
+			stuck++
+			if stuck >= 2 {
+				c.Note("mux run stopped: connections are left neither delivered nor closed")
+				break
+			}
+			continue
+		}
 		implLine := fmt.Sprintf("route=%s reads=%s closed=%s deadline=%s", o.route, o.reads, B01(o.closed), B01(o.deadline))
 		if pan != "" {
 			implLine = "panic"
